@@ -68,7 +68,18 @@ func (c04) Gen(r *rand.Rand, tier string, i int) any {
 	}
 	rule := p.Rules[target]
 	body := append([]gen.LitV{}, rule.Body...)
-	mode := r.Intn(14)
+	mode := r.Intn(15)
+	if mode == 14 {
+		// this perturbation is about aggregating rules: take one if the program has any
+		for t := range p.Rules {
+			if tr := p.Rules[t].Transforms; len(tr) == 1 && len(tr[0]) > 0 && tr[0][0].Var == "" {
+				target = t
+				rule = p.Rules[t]
+				body = append([]gen.LitV{}, rule.Body...)
+				break
+			}
+		}
+	}
 	// lower predicates for extra negated atoms
 	var lowerPreds []gen.PredSig
 	headLevel := 1
@@ -213,6 +224,25 @@ func (c04) Gen(r *rand.Rand, tier string, i int) any {
 			}
 			l.Args = args
 			body[k] = l
+		}
+	case mode == 14:
+		// a group key that is not a plain variable: a function expression over a key variable, a constant, a wildcard
+		if len(rule.Transforms) == 1 && len(rule.Transforms[0]) > 0 && rule.Transforms[0][0].Var == "" && len(rule.Transforms[0][0].Fn.Args) > 0 {
+			st := append([]gen.StmtV{}, rule.Transforms[0]...)
+			keys := append([]gen.TermV{}, st[0].Fn.Args...)
+			k := r.Intn(len(keys))
+			switch r.Intn(4) {
+			case 0:
+				keys[k] = gen.FnT("fn:plus", keys[k], gen.ConstT(gen.Num(1)))
+			case 1:
+				keys[k] = gen.FnT("fn:pair", keys[k], keys[k])
+			case 2:
+				keys[k] = gen.ConstT(gen.Num(1))
+			default:
+				keys[k] = gen.VarT("_")
+			}
+			st[0].Fn = gen.FnT("fn:group_by", keys...)
+			rule.Transforms = [][]gen.StmtV{st}
 		}
 	case mode == 13:
 		// a let-transform over an alias: the rule gets "A = V" (either orientation, anywhere in the body, also
